@@ -22,15 +22,30 @@ one module per grammar rule group; coq/Fix/ParamSpec.v, coq/Fix/FileSet.v):
  (e) the per-type file stems asn1c reports (`Compiled X.c`, in order) = FileSet.file_stems of the extracted model;
  (f) the specialization index of every flat instantiation site (read from the generated header) =
      ParamSpec.spec_indices of the model; and, on the C output alone, references with different actual parameter
-     lists must not share a C type (false on the unchanged tree: finding C10-param-actuals-compared-shallowly)."""
+     lists must not share a C type (false on the unchanged tree: finding C10-param-actuals-compared-shallowly).
+Round 3 (lib/c10_refs.py: TYPE REFERENCES as a swept dimension - one module per basic type kind x alias chains of length
+1..3 x tagged/untagged at each hop x added constraint x every use position; coq/Rt/WfAlias.v):
+ (g) the alias invariant, on the C output alone (lib/c10_alias.py): the descriptor of `A ::= [tag] T (c)` equals T's in
+     every slot except name / tags (= X.680 tagging of T's) / constraint records (equal unless c) / specifics (equal unless
+     c re-constrains an INTEGER or REAL); every member without a tag of its own carries the outermost tag of its type;
+ (h) the same facts as a checked obligation: Gen_Descr_<n>.v now states `wf_x xtab = true` (Rt/WfAlias.v: wf_descr_all +
+     hops + member tags) for every table; the theorems C10_alias_* say what that gives for chains of any length;
+ (i) thorough: asn1c rebuilt with --coverage in a scratch copy, every module run once; evidence lists which module first
+     reaches each asn1c_lang_C_type_* emitter / each case arm of emit_type_DEF, emit_member_table ..., and the
+     never-executed lines of libasn1compiler/asn1c_C.c."""
 import sys, os, re, json, time
 sys.path.insert(0, os.path.join(os.path.dirname(os.path.abspath(__file__)), "..", "lib"))
 from vlib import *
 from c10_util import *
+import c10_alias, c10_refs
 
 CLAUSES = {1: "translator saw a null table with a non-zero count", 2: "member type index out of range", 3: "tags / all_tags relation",
            4: "PER record of the type", 5: "OER record of the type", 6: "member records (PER/OER/tag_mode/flags)",
-           7: "kind-specific specifics (tag2el sorted+exact, oms/roms/aoms, first_extension, canonical maps, enum maps)"}
+           7: "kind-specific specifics (tag2el sorted+exact, oms/roms/aoms, first_extension, canonical maps, enum maps)",
+           8: "reference: op table / member table / specifics differ from the target's", 9: "reference: tag vectors are not the X.680 tagging of the target's",
+           10: "reference: PER/OER record differs from the target's although no constraint is added", 11: "BIT STRING / ANY descriptor with NULL specifics",
+           12: "member without a tag of its own does not carry the outermost tag of its type", 13: "elements_count differs from the dumped member list",
+           14: "an alias with two targets (harness)", 15: "identity lines missing (harness)"}
 
 
 # ---------------------------------------------------------------- known findings: symptom signature + predicate on the input
@@ -173,6 +188,20 @@ def of_unsigned_through_param(text):
     return False
 
 
+def real_reference_with_range(text):
+    """a reference to a type whose chain ends in REAL, used with a value constraint (not WITH COMPONENTS)"""
+    t = strip_comments(text)
+    first = {}
+    for n, rhs in parse_defs(t):
+        mm = re.match(r"(?:\[[^\]]*\]\s*(?:IMPLICIT\s+|EXPLICIT\s+)?)?([A-Za-z][\w-]*)", rhs)
+        if mm:
+            first[n] = mm.group(1)
+    real = {n for n, f in first.items() if f == "REAL"}
+    for _ in range(8):
+        real |= {n for n, f in first.items() if f in real}
+    return any(re.search(r"(?<![\w-])%s\s*\(\s*(?!WITH\b)" % re.escape(n), t) for n in real)
+
+
 def match_finding(stage, job):
     """-> finding id or None.  Each rule = symptom signature (the site) AND a predicate on (module text, options)."""
     text, opts = job["mod"]["text"], job["opts"]
@@ -202,6 +231,11 @@ def match_finding(stage, job):
             return "C10-instance-of-member-error-directive"
         if re.search(r"\b[\w-]+\.h: No such file", blog) and valueset_used_as_type(text):
             return "C10-valueset-type-as-member"
+        if re.search(r"asn_REAL2double.*incompatible pointer type|invalid operands to binary .* \(have .\w+_t. \{aka .struct ASN__PRIMITIVE_TYPE_s.\}", blog) \
+           and "-fwide-types" in opts and "-fno-constraints" not in opts and real_reference_with_range(text):
+            return "C10-real-reference-constraint-value-type"
+        if re.search(r"unknown type name .asn_(Native)?REAL_specifics_t|.asn_(Native)?REAL_specifics_t. does not name a type", blog) and "-fwide-types" in opts and REAL_REF_NARROWED.search(strip_comments(text)):
+            return "C10-real-reference-narrowed-to-float"
     if stage == "files-model":
         # model and C disagree on the per-type file names ONLY at parameterized types defined in two modules
         # (the templates are not run through asn1f_check_duplicate: no module prefix, both saved to one file)
@@ -224,7 +258,23 @@ def match_finding(stage, job):
     if stage == "descr":
         if set(job["failing_clauses"]) <= {4, 6} and bound_exceeds_long(text):
             return "C10-constant-exceeds-c-type"
+        # the Coq checker re-decides what the alias oracle decided on the same dump: clauses 9 / 12 are the tagged-ANY
+        # finding exactly when every problem the oracle saw is that symptom
+        # and 8 (representation) the narrowed-REAL finding
+        if set(job["failing_clauses"]) <= {8, 9, 12} and job.get("alias_probs") and not alias_unexplained(job):
+            return sorted({p_[2] for p_ in job["alias_probs"]})[0]
     return None
+
+
+REAL_REF_NARROWED = re.compile(r"::=\s*(?:\[[^\]]*\]\s*(?:IMPLICIT\s+|EXPLICIT\s+)?)?[A-Z][\w.-]*\s*\(\s*WITH\s+COMPONENTS\s*\{[^}]*\bmantissa\b")
+
+
+def alias_unexplained(job):
+    """the problems of the alias / member-tag oracle that no known finding explains (symptom flag of the oracle AND a
+    predicate on the module text)"""
+    text = strip_comments(job["mod"]["text"])
+    ok = {"C10-tagged-any-loses-tag": bool(re.search(r"\bANY\b", text)), "C10-real-reference-narrowed-to-float": bool(REAL_REF_NARROWED.search(text))}
+    return [p_ for p_ in job.get("alias_probs", []) if not (len(p_) > 2 and p_[2] and ok.get(p_[2]))]
 
 
 # ---------------------------------------------------------------- round 2: file set and specialization ties
@@ -351,21 +401,27 @@ def main(tier):
         run.violation("build:asn1c", {"what": str(e)[-2500:]}, no_input=True)
         return run.finish("translation_validation", (nthm, ndis))
     mods = corpus(rng, tier)
-    optsets = QUICK_OPTSETS if tier == "quick" else all_optsets()
+    # quick: the 4 option sets of round 1 + "-fwide-types" alone (wide types WITH constraint code), which only the numeric
+    # kinds of the reference sweep get: set 2 carries -fno-constraints, so the checker emitted for a constrained INTEGER / REAL
+    # reference under wide types was built in the thorough tier only (finding C10-real-reference-constraint-value-type)
+    optsets = (QUICK_OPTSETS + [("-fwide-types",)]) if tier == "quick" else all_optsets()
     jobs = []
     root = os.path.join(scr, "jobs")
     for mi, m in enumerate(mods):
         for oi, opts in enumerate(optsets):
             # thorough: asn1c runs under all 128 subsets for every module; the build + translator part runs for 16 of them
             # per module, rotating so that all subsets are built across the corpus
-            if tier == "quick" and m["origin"] in ("special", "multi", "grammar") and not m.get("all_optsets") and oi not in (mi % 2, 2 + (mi // 2) % 2):
+            if tier == "quick" and oi == 4:
+                if not (m["origin"] == "refs" and m.get("numeric")):
+                    continue
+            elif tier == "quick" and m["origin"] in ("special", "multi", "grammar", "refs") and not m.get("all_optsets") and oi not in (mi % 2, 2 + (mi // 2) % 2):
                 continue        # quick: generated modules get the 4 option sets, hand-made valid ones 2 of them in rotation
             if tier == "quick" and m["origin"] == "param" and oi not in (1, (3, 0, 2)[mi % 3]):
                 continue        # parameterized modules mostly need -fcompound-names (set 1); a second set in rotation
             if tier == "quick" and m["origin"] == "grammar-refused" and oi != mi % 4:
                 continue        # refusals happen in the parser / fixer: one option set each
             # thorough: build + translator under 16 rotating subsets per module (6 for the region modules of round 2, which are many)
-            full = tier == "quick" or ((oi - 16 * mi) % 128) < (6 if m["origin"] in ("param", "multi", "grammar", "grammar-refused") else 16)
+            full = tier == "quick" or ((oi - 16 * mi) % 128) < (6 if m["origin"] in ("param", "multi", "grammar", "grammar-refused", "refs") else 16)
             jobs.append({"mod": m, "opts": opts, "oi": oi, "dir": job_dir(root, m, oi), "asn1c": asn1c, "skel": skel,
                          "only_asn1c": not full, "cleanup": True})
     print("C10: %d jobs" % len(jobs), file=sys.stderr)
@@ -441,11 +497,33 @@ def main(tier):
         run.count("descriptors", len(terms))
         for k, _n in names_.values():
             run.count("kind:" + k)
+        # (g) references: the alias invariant and the member tags, evaluated on the dump alone
+        hops = m.get("hops")
+        if hops is None and not m.get("files"):
+            hops = c10_refs.hops_from_text(m["text"])
+        probs, resolved = c10_alias.alias_oracle(j["dump"], hops or [])
+        probs += c10_alias.member_tag_oracle(j["dump"])
+        run.count("tie:reference-hops", len(resolved))
+        for h_ in resolved:
+            run.count("hop:%s%s" % ("tagged" if h_[2] is not None else "untagged", "+constraint" if h_[4] else ""))
+        if probs:
+            j["alias_probs"] = probs
+            run.count("oracle:alias-invariant-broken")
+            bad = [p_ for p_ in alias_unexplained(j)] + [p_ for p_ in probs if len(p_) > 2 and p_[2] and p_[2] not in known_ids]
+            for fid in sorted({p_[2] for p_ in probs if len(p_) > 2 and p_[2] and p_[2] in known_ids and p_ not in bad}):
+                run.known_finding(fid, case)
+                run.count("known:" + fid)
+            if bad:
+                run.violation("alias:" + ",".join(sorted({p_[0] for p_ in bad})),
+                              dict(replay, what="asn1c exited 0 and the code builds, but the descriptor of a type reference is not its target's "
+                                                "(op / members / representation / specifics / X.680 tags / codec records), or a member does not carry the tag of its type",
+                                   problems=[p_[1] for p_ in bad[:10]], hops=[h_ for h_ in (hops or [])][:40]))
         if tier == "quick" and m["origin"] in ("param", "multi", "grammar", "grammar-refused") and m["name"] in tabled:
             run.count("descriptor-tables-not-rechecked(round-2 module, second option set)")
             continue            # quick: the descriptor obligation of a round-2 module is generated for its first option set only
         tabled.add(m["name"])
-        tables.append((case, "-no-gen-PER" not in opts, "-no-gen-OER" not in opts, terms))
+        xi, hp = c10_alias.coq_x(j["dump"], resolved)
+        tables.append((case, "-no-gen-PER" not in opts, "-no-gen-OER" not in opts, terms, xi, hp))
         table_jobs.append((j, names_, replay))
         if len(run.cov["samples"]) < 3 and m["origin"] in ("special", "modgen") and len(terms) >= 3:
             run.sample({"module": m["name"], "options": list(opts), "descriptors": len(terms), "first": terms[0][:300]})
@@ -471,7 +549,7 @@ def main(tier):
             run.violation("translator:Gen_Descr(coqc)", dict(replay, what="generated obligation file does not compile", coqc_tail=log), no_input=True)
             continue
         j["failing_clauses"] = [c for _, c in diag]
-        j["failing_descrs"] = [(c, names_.get(d, ("?", "?"))[0], names_.get(d, ("?", "?"))[1], tables[i][3][d] if d < len(tables[i][3]) else "") for d, c in diag]
+        j["failing_descrs"] = [(c, names_.get(d, ("?", "?"))[0], names_.get(d, ("?", "?"))[1], tables[i][3][d] if 0 <= d < len(tables[i][3]) else "") for d, c in diag]
         fid = match_finding("descr", j)
         if fid and fid in known_ids:
             run.known_finding(fid, tables[i][0])
@@ -480,7 +558,23 @@ def main(tier):
         bad = [{"descriptor": names_.get(d, ("?", "?"))[1], "kind": names_.get(d, ("?", "?"))[0], "index": d, "clause": c, "clause_text": CLAUSES.get(c, "?")} for d, c in diag[:8]]
         run.violation("translator:Gen_Descr(clause %s)" % ",".join(sorted({str(c) for _, c in diag})),
                       dict(replay, what="asn1c exited 0 and the code builds, but a type descriptor is internally inconsistent: wf_descr_all = false",
-                           failing=bad, terms=[tables[i][3][d][:1500] for d, _ in diag[:2] if d < len(tables[i][3])]))
+                           failing=bad, terms=[tables[i][3][d][:1500] for d, _ in diag[:2] if 0 <= d < len(tables[i][3])]))
+
+    # (i) thorough: which module reaches which part of the emitter (gcov on a scratch copy of asn1c) - evidence about the generator
+    emitter_cov = None
+    if tier != "quick" or os.environ.get("C10_GCOV"):
+        try:
+            import c10_gcov
+            A = all_optsets()
+            emitter_cov = c10_gcov.coverage_report(mods, lambda i, m_: [(), QUICK_OPTSETS[2], A[(37 * i + 5) % 128]])
+            run.count("emitter-coverage:executed-lines", emitter_cov["executed_lines"])
+            run.count("emitter-coverage:executable-lines", emitter_cov["executable_lines"])
+            run.count("emitter-coverage:switch-arms-never-reached", sum(1 for v in emitter_cov["switch_arms"].values() if v == "NEVER"))
+            # kept beside the evidence file: a later quick run overwrites evidence/C10.json, not this
+            json.dump(dict(emitter_cov, tier=tier, seed=run.seed), open(os.path.join(VERIF, "evidence", "C10-emitter-coverage.json"), "w"), indent=1)
+            print("C10: emitter coverage done at %.1fs: %d/%d lines of %s" % (time.time() - T0, emitter_cov["executed_lines"], emitter_cov["executable_lines"], emitter_cov["source"]), file=sys.stderr)
+        except Exception as e:          # evidence only: never a verdict
+            emitter_cov = {"error": str(e)[-800:]}
 
     # vlib prints one VIOLATION line per kind among the first 20 recorded: put one of every kind first
     firsts, rest, seen_k = [], [], set()
@@ -498,7 +592,9 @@ def main(tier):
                       extra_cov={"theorems": names, "modules": len(mods), "option_sets": len(optsets), "tables_checked": len(tables),
                                  "rule": "one case = (module, option set); non-trivial = went through build + translator; quick: 4 option sets, "
                                          "thorough: asn1c under all 128 subsets, build+translator under 16 rotating subsets per module",
-                                 "partial": "(a) termination and (b) buildability are observations on this corpus; (c) is decided inside Coq per run"},
+                                 "partial": "(a) termination and (b) buildability are observations on this corpus; (c) is decided inside Coq per run",
+                                 "reference_sweep": {"kinds": [k[0] for k in c10_refs.KINDS], "modules": sum(1 for m_ in mods if m_["origin"] == "refs")},
+                                 "emitter_coverage": emitter_cov or "thorough tier only (C10_GCOV=1 forces it)"},
                       assumptions=["x86-64 LP64, gcc of this image", "supported constructs = what lib/modgen.py, lib/widegen.py and the hand-made list in lib/c10_util.py exercise",
                                    "descriptor consistency is necessary for, not equal to, codec correctness (C01/C02 tie behaviour)"])
 
